@@ -147,7 +147,7 @@ func main() {
 	fmt.Println("  InsertPagesFile after -p 1:", api.InsertPagesFile(mid, out, []string{"1"}, false, nil, conf()))
 	show("output", out)
 
-	fmt.Println("R5  CollectFile/TrimFile/RemovePagesFile dropping every named destination: the output's /Dests root keeps a stale /Kids entry (dangling reference); pdfcpu's own ValidateFile rejects the file and every following operation fails")
+	fmt.Println("R5  (repaired in /repo by 193b395b; kept as regression probe) CollectFile/TrimFile/RemovePagesFile dropping every named destination: the output's /Dests root keeps a stale /Kids entry (dangling reference); pdfcpu's own ValidateFile rejects the file and every following operation fails")
 	spec := pdfgen.DocSpec{Seed: 1, Pages: 3, Dests: 3, NameTreeLeafMax: 1}
 	os.WriteFile(in, pdfgen.Build(spec).Bytes, 0o644)
 	os.Remove(out)
